@@ -18,7 +18,7 @@ const PW_BAD: &str = "wrong horse battery staple 0000";
 const TOTP_SECRET: &[u8] = b"verif-c27-totp-secret-abcdefgh";
 const STEP: u64 = 30;
 const ADVANCE: u64 = 120;
-const MECHS: [&str; 5] = ["anonymous", "password", "passwordtotp", "passwordbackupcode", "passkey"];
+const MECHS: [&str; 7] = ["anonymous", "password", "passwordtotp", "passwordbackupcode", "passwordsecuritykey", "passkey", "oauth2trust"];
 const CREDS: [&str; 8] = ["pw_ok", "pw_bad", "totp_cur", "totp_prev", "totp_stale", "backup_ok", "backup_bad", "anon"];
 
 type Step = (String, String);
@@ -56,6 +56,8 @@ fn mech_of(m: &str) -> AuthMech {
         "password" => AuthMech::Password,
         "passwordtotp" => AuthMech::PasswordTotp,
         "passwordbackupcode" => AuthMech::PasswordBackupCode,
+        "passwordsecuritykey" => AuthMech::PasswordSecurityKey,
+        "oauth2trust" => AuthMech::OAuth2Trust,
         _ => AuthMech::Passkey,
     }
 }
